@@ -1,7 +1,7 @@
 /*@harness
 {"tier":"quick","mode":"bounded(sweep of 1 second over a slot holding at most 2 entries; the callback may schedule one new call_out with a symbolic delay; all times and deltas symbolic)","tus":["lib/efuns/call_out.c"],"include_tu":true,"dfcc":false,
  "functions":["call_out","new_call_out","free_called_call","free_call"],
- "flags":["--bounds-check","--pointer-check","--unwindset","due_in_wheel.0:34,due_in_wheel.1:34"],"unwind":3,"timeout":1200,
+ "flags":["--bounds-check","--pointer-check","--unwindset","due_in_slot.0:6"],"unwind":3,"tier_note":"x","timeout":1200,
  "expect":["h_call_out_sweep.assertion","apply.assertion","call_out.pointer_dereference"],
  "native":{"rename":["setjmp"]},
  "assumptions":["apply() is the LPC callback: it may call call_out() (new_call_out) once, re-entrantly, with any delay","setjmp returns 0 (the error path is C05/C09 territory)","reference-count primitives are stubs"],
@@ -34,9 +34,9 @@ svalue_t *apply(const char *fun, object_t *ob, int n, int origin) {
   }
   return 0;
 }
-long due_in_wheel(pending_call_t *e, long cot) {   /* due time of e computed from the wheel as it is now, -1 if absent */
-  for (int s = 0; s < W; s++) { long sum = 0; int k = 0;
-    for (pending_call_t *c = call_list[s]; c && k < 4; c = c->next, k++) { sum += c->delta; if (c == e) return due_of(s, cot, sum); } }
+long due_in_slot(pending_call_t *e, long cot, int s) {   /* due time of e computed from slot s of the wheel as it is now, -1 if absent */
+  long sum = 0; int k = 0;
+  for (pending_call_t *c = call_list[s]; c && k < 4; c = c->next, k++) { sum += c->delta; if (c == e) return due_of(s, cot, sum); }
   return -1;
 }
 
@@ -61,14 +61,15 @@ void h_call_out_sweep(void) {
   if (n >= 1) {
     V_ASSERT(G_firedA == (dueA <= now ? 1 : 0), "a call_out fires exactly once in the sweep that reaches its due time, and not before");
     V_ASSERT(dueA > now || G_fire_time_A == dueA, "it fires in the second it is due (backlog is worked off second by second)");
-    V_ASSERT(dueA <= now || due_in_wheel(&A, now) == dueA, "a call_out that is not yet due keeps its due time");
+    V_ASSERT(dueA <= now || due_in_slot(&A, now, slot) == dueA, "a call_out that is not yet due keeps its due time");
   }
   if (n == 2) {
     V_ASSERT(G_firedB == (dueB <= now ? 1 : 0), "the second entry fires exactly once iff it is due");
-    V_ASSERT(dueB <= now || due_in_wheel(&B, now) == dueB, "the second entry keeps its due time while waiting");
+    V_ASSERT(dueB <= now || due_in_slot(&B, now, slot) == dueB, "the second entry keeps its due time while waiting");
   }
   if (G_new_due_expected >= 0) {
-    long d = due_in_wheel(&N0, now);
+    long eff2 = G_delay < 1 ? 1 : G_delay; int nslot = (int)((eff2 + now) & (W - 1));
+    long d = due_in_slot(&N0, now, nslot);
     V_ASSERT(G_firedN == 0 && d >= 0, "a call_out scheduled from inside a callback is queued, not called in the same sweep step");
     V_ASSERT(d == G_new_due_expected, "a call_out scheduled from inside a call_out callback is due at now + max(delay,1) - also when it lands in the slot being swept");
   }
